@@ -210,3 +210,71 @@ Proof.
   - intros (b & Hb & ->). apply in_map_iff in Hb as (x & E & Hx). apply Z.ltb_lt in E. eauto.
   - intros (x & Hx & Hlt). exists true. split; auto. apply in_map_iff. exists x. split; auto. now apply Z.ltb_lt.
 Qed.
+
+(* ---- np.unique: strictly increasing, same members, and it keeps the length exactly for duplicate-free input ---- *)
+
+Lemma ins_uniq_in x y l : In y (ins_uniq x l) <-> y = x \/ In y l.
+Proof.
+  induction l as [|z l IH]; cbn; [intuition|].
+  destruct (Z.ltb_spec x z); [cbn; intuition|].
+  destruct (Z.eqb_spec x z) as [->|Hne]; [cbn; intuition|].
+  cbn. rewrite IH. intuition.
+Qed.
+
+Lemma ins_uniq_sorted x l : StronglySorted Z.lt l -> StronglySorted Z.lt (ins_uniq x l).
+Proof.
+  induction 1 as [|z l Hs IH Hall]; cbn; [repeat constructor|].
+  destruct (Z.ltb_spec x z).
+  - constructor; [constructor; auto|]. constructor; auto.
+    rewrite Forall_forall in *. intros y Hy. specialize (Hall y Hy). lia.
+  - destruct (Z.eqb_spec x z) as [->|Hne]; [constructor; auto|].
+    constructor; auto. rewrite Forall_forall in *. intros y Hy. apply ins_uniq_in in Hy as [->|Hy]; [lia|auto].
+Qed.
+
+Lemma np_unique_strict l : StronglySorted Z.lt (np_unique l).
+Proof. induction l as [|x l IH]; cbn; [constructor|]. now apply ins_uniq_sorted. Qed.
+
+Lemma np_unique_in x l : In x (np_unique l) <-> In x l.
+Proof.
+  induction l as [|y l IH]; cbn; [tauto|]. change (fold_right ins_uniq [] l) with (np_unique l).
+  rewrite ins_uniq_in, IH. intuition.
+Qed.
+
+Lemma ins_uniq_length x l : StronglySorted Z.lt l ->
+  length (ins_uniq x l) = if zmem x l then length l else S (length l).
+Proof.
+  induction 1 as [|z l Hs IH Hall]; cbn [ins_uniq zmem existsb length]; [reflexivity|].
+  fold (zmem x l). rewrite Forall_forall in Hall.
+  destruct (Z.ltb_spec x z).
+  - destruct (Z.eqb_spec x z); [lia|]. cbn [orb length].
+    destruct (zmem x l) eqn:E; [|reflexivity]. apply zmem_spec in E. specialize (Hall x E). lia.
+  - destruct (Z.eqb_spec x z) as [->|Hne]; [reflexivity|]. cbn [orb length]. rewrite IH.
+    destruct (zmem x l); reflexivity.
+Qed.
+
+Lemma np_unique_length_le l : (length (np_unique l) <= length l)%nat.
+Proof.
+  induction l as [|x l IH]; cbn [np_unique fold_right length]; [lia|].
+  change (fold_right ins_uniq [] l) with (np_unique l).
+  rewrite ins_uniq_length by apply np_unique_strict. destruct (zmem x (np_unique l)); lia.
+Qed.
+
+Lemma np_unique_length_nodup l : length (np_unique l) = length l <-> NoDup l.
+Proof.
+  induction l as [|x l IH]; cbn [np_unique fold_right length]; [split; [constructor|reflexivity]|].
+  change (fold_right ins_uniq [] l) with (np_unique l).
+  rewrite ins_uniq_length by apply np_unique_strict.
+  pose proof (np_unique_length_le l) as Hle.
+  destruct (zmem x (np_unique l)) eqn:E.
+  - split; [lia|]. intros Hn. inversion Hn as [|? ? Hx _]; subst.
+    apply zmem_spec in E. apply (proj1 (np_unique_in x l)) in E. contradiction.
+  - split.
+    + intros H. constructor; [|apply IH; lia]. intros Hin. apply (proj2 (np_unique_in x l)) in Hin. apply zmem_spec in Hin. congruence.
+    + intros Hn. inversion Hn; subst. f_equal. now apply IH.
+Qed.
+
+Lemma strict_sorted_nodup l : StronglySorted Z.lt l -> NoDup l.
+Proof.
+  induction 1 as [|x l Hs IH Hall]; constructor; auto.
+  rewrite Forall_forall in Hall. intros Hin. specialize (Hall x Hin). lia.
+Qed.
